@@ -31,6 +31,78 @@ pub struct Case {
 
 pub struct C03;
 
+fn transient_error_then_run_again(cut: usize, kind: usize) -> Option<Failure> {
+    use super::common::*;
+    use crate::api::*;
+    use crate::refcodec as rc;
+    use crate::world::World;
+    const KINDS: [std::io::ErrorKind; 7] = [
+        std::io::ErrorKind::TimedOut,
+        std::io::ErrorKind::Interrupted,
+        std::io::ErrorKind::ConnectionReset,
+        std::io::ErrorKind::UnexpectedEof,
+        std::io::ErrorKind::ConnectionAborted,
+        std::io::ErrorKind::Other,
+        std::io::ErrorKind::BrokenPipe,
+    ];
+    let plan = WritePlan::default();
+    let mut w = World::new();
+    if connect_and_run(&mut w, ConnectSpec::default(), &default_connack(), &plan).is_err() {
+        return None;
+    }
+    let mut tr = Tracker::new();
+    tr.skip_existing(&mut w);
+    let s = w.start_op(0, OpSpec::Subscribe(tagged_subscribe(0, 1)))?;
+    settle(&mut w, &plan, true);
+    tr.update(&mut w);
+    let (spid, sid) = (tr.pid(s)?, tr.sub_id(s)?);
+    feed_packet(&mut w, &rc::Packet::Suback(rc::AckList { pid: spid, reasons: vec![0], ..Default::default() }), &rc::Form::canonical());
+    settle(&mut w, &plan, true);
+    let stream = w.make_stream(s)?;
+    let bytes = rc::encode(
+        &rc::Packet::Publish(rc::Publish { qos: 1, pid: Some(33), topic: "c03/again".into(), payload: vec![0x61; 40], subscription_ids: vec![sid], ..Default::default() }),
+        &rc::Form::canonical(),
+    );
+    let k = 1 + cut % (bytes.len() - 1);
+    w.tick();
+    w.reader.feed(bytes[..k].to_vec());
+    settle(&mut w, &plan, true);
+    w.reader.set_err_once(KINDS[kind % KINDS.len()]);
+    settle(&mut w, &plan, true);
+    if w.run_result.is_none() {
+        return None; // C13 judges how run() ends on a transport error
+    }
+    w.tick();
+    if !w.start_run() {
+        return None;
+    }
+    settle(&mut w, &plan, true);
+    w.sync_wire();
+    let before = w.pkts.len();
+    w.reader.feed(bytes[k..].to_vec());
+    settle(&mut w, &plan, true);
+    if let Some(p) = first_panic(&w) {
+        return Some(Failure { sig: format!("PANIC/{}", panic_sig(&p)), msg: p });
+    }
+    w.drain_stream(stream);
+    w.sync_wire();
+    let acked = w.pkts[before..].iter().any(|p| matches!(&p.decoded, Ok(rc::Packet::Puback(a)) if a.pid == 33));
+    if w.streams[stream].items.len() != 1 || !acked || w.run_result.is_some() {
+        return Some(Failure {
+            sig: "C03/observables-depend-on-chunking/read-error-inside-a-packet".into(),
+            msg: format!(
+                "a {}-byte PUBLISH whose read failed ({:?}) after {k} bytes, run() called again on the same transport, the remaining {} bytes delivered: stream items {}, PUBACK written: {acked}, run() = {:?} (all of the packet's bytes were delivered, in order)",
+                bytes.len(),
+                KINDS[kind % KINDS.len()],
+                bytes.len() - k,
+                w.streams[stream].items.len(),
+                w.run_result
+            ),
+        });
+    }
+    None
+}
+
 fn scenario(c: &Case, plan: ChunkPlan, settle_between: bool) -> Scenario {
     let mut ev = vec![];
     let ok = Deco::default();
@@ -251,6 +323,16 @@ impl Property for C03 {
 
     fn run(case: &Case) -> Outcome {
         let mut o = Outcome::ok();
+        // a read that fails in the middle of a packet ends run(); calling run() again on the same
+        // transport must pick the packet up where the stream stopped
+        {
+            let h = case_hash(case);
+            if let Some(f) = transient_error_then_run_again((h % 60) as usize, (h / 60 % 7) as usize) {
+                o.fail = Some(f);
+                return o;
+            }
+            o.class("read-error-inside-a-packet-then-run-again");
+        }
         let cfg_ref = SimCfg::default();
         let reference = run(&scenario(case, ChunkPlan::PerPacket, true), &cfg_ref);
         if let Some(f) = failure_for(&reference, &["C03/"]) {
